@@ -39,16 +39,19 @@ func NewRdbReaderFromFile(w io.WriteCloser, rdbFilePath string, verifyCrc bool) 
 func NewRdbReader(w io.WriteCloser, rdbDir string, offset int64, rdbSize int64, verifyCrc bool) (*RdbReader, error) {
 	rdbFn := fmt.Sprintf("%s%c%v_%v.rdb", rdbDir, os.PathSeparator, offset, rdbSize)
 
-	writting := false
-	if !fileExist(rdbFn) {
-		rdbFn = rdbFn + ".tmp"
-		if !fileExist(rdbFn) {
-			return nil, os.ErrNotExist
+	// the writer renames *.rdb.tmp to *.rdb once the snapshot is complete; this can happen between
+	// any two steps here, so look for *.rdb once more after *.rdb.tmp has gone
+	tries := []struct {
+		fn       string
+		writting bool
+	}{{rdbFn, false}, {rdbFn + ".tmp", true}, {rdbFn, false}}
+	for _, t := range tries {
+		r, err := newRdbReader(w, t.fn, offset, rdbSize, verifyCrc, t.writting)
+		if err == nil || !os.IsNotExist(err) {
+			return r, err
 		}
-		writting = true
 	}
-
-	return newRdbReader(w, rdbFn, offset, rdbSize, verifyCrc, writting)
+	return nil, os.ErrNotExist
 }
 
 func newRdbReader(w io.WriteCloser, rdbFilePath string, offset int64, rdbSize int64, verifyCrc bool, isWritting bool) (*RdbReader, error) {
